@@ -2,8 +2,9 @@
 import json, os, hashlib, collections
 from core import *
 
-BUDGET = {"quick": dict(maxcap=6, shards=6, n_hist=60, n_ops=14),
-          "thorough": dict(maxcap=11, shards=16, n_hist=400, n_ops=30)}
+BUDGET = {"quick": dict(maxcap=6, shards=6, n_hist=60, n_ops=14, large=[[65539], [131073], [300001]]),
+          "thorough": dict(maxcap=11, shards=16, n_hist=400, n_ops=30,
+                           large=[[4099], [65539], [131073], [262149], [300001], [1048577], [2097155], [4194305]])}
 ITEMSIZE = {"float64": 8, "float32": 4, "int64": 8, "uint64": 8, "int32": 4, "uint32": 4, "int16": 2, "uint16": 2, "int8": 1, "uint8": 1}
 
 
@@ -106,6 +107,17 @@ def run(ctx):
         report(ctx, sig, "%s on %s: %s" % (h["ops"][k][0], h["kind"], h["steps"][k].get("err", "buffer/result bytes differ from the byte-list specification")),
                dict(kind="concrete", tie="K-BUFOPS", hist={"kind": h["kind"], "init": h["init"], "ops": ops},
                     observed=h["steps"][k], failing_step=k, how_to_replay="./check C13 --replay <this file>"))
+    # sizes far above what can be evaluated inside Coq: every primitive once per (kind, size, offset), judged by the
+    # harness against the same splice / slice semantics
+    nlarge = 0
+    for r, sizes in zip(run_impl_parallel(ctx, "bufops", [{"large": sz} for sz in bud["large"]]), bud["large"]):
+        nlarge += r["probes"]
+        for b in r["bad"]:
+            sig = "C13/large/%s/%s%s" % (b["primitive"], b["kind"], "/raises" if "raises" in b else "/wrong-bytes")
+            if sig in seen: continue
+            seen.add(sig); found = True
+            report(ctx, sig, "%s on %s with %d items at offset %d: %s" % (b["primitive"], b["kind"], b["n"], b["offset"], b.get("raises", "bytes differ from splice/slice, first at %s" % b.get("first_wrong_byte"))),
+                   dict(kind="concrete", tie="K-BUFOPS-LARGE", probe=b, how_to_replay="./check C13 --replay <this file>"))
     if broken:
         report(ctx, "C13/cases-do-not-evaluate", "cases file does not evaluate", dict(kind="broken-tie", log=broken), no_input=True)
     broken_obligations_violation(ctx, obl, found)
@@ -120,7 +132,7 @@ def run(ctx):
             if o[0] == "upd_buffer": hist["source:" + o[3]] += 1
     smp = hs[-1]
     cov = dict(evaluations=nev, distinct_nontrivial=len(distinct), histories=len(hs), exhaustive=False,
-               rule="(a) exhaustive: both CPU buffer kinds x every capacity 0..%d x every in-range (offset,length) x a fixed battery of every primitive; (b) random histories mixing all primitives incl. views/copies kept across later writes, growth, 10 dtypes x {C,F,strided,negative-stride,0-d,empty,big-endian} sources with/without conversion, byte-like and typed-memoryview sources. Each step: whole buffer + returned bytes compared inside Coq with the model (hist_ok). distinct = distinct (kind, initial bytes, op list)" % bud["maxcap"],
+               rule="(a) exhaustive: both CPU buffer kinds x every capacity 0..%d x every in-range (offset,length) x a fixed battery of every primitive; (b) random histories mixing all primitives incl. views/copies kept across later writes, growth, 10 dtypes x {C,F,strided,negative-stride,0-d,empty,big-endian} sources with/without conversion, byte-like and typed-memoryview sources. Each step: whole buffer + returned bytes compared inside Coq with the model (hist_ok). distinct = distinct (kind, initial bytes, op list); (c) large transfers: every primitive once per buffer kind x size in %s x offset in {0,8,13} (nplike with 7 dtype pairs), judged by the harness against the same splice/slice semantics (too large to evaluate inside Coq)" % (bud["maxcap"], [s[0] for s in bud["large"]]), large_probes=nlarge,
                samples=[{"kind": smp["kind"], "init": smp["init"], "ops": [str(o)[:160] for o in smp["ops"][:8]]}],
                distribution=dict(sorted(hist.items())), traces_validated_against_impl=len(hs), corpus_cases=len(corpus))
     return finish(ctx, "proof", obl, cov,
@@ -133,6 +145,12 @@ def replay(ctx, path):
     r = json.load(open(path))
     if r.get("kind") != "concrete":
         print("nothing to execute:", r.get("what")); return 1
+    if r.get("tie") == "K-BUFOPS-LARGE":
+        res = run_impl(ctx, "bufops", {"large": [r["probe"]["n"]]})
+        same = [b for b in res["bad"] if b["primitive"] == r["probe"]["primitive"] and b["kind"] == r["probe"]["kind"]]
+        for b in same[:5]: print(b)
+        print("REPRODUCED" if same else "not reproduced")
+        return 1 if same else 0
     h = run_impl(ctx, "bufops", {"replay": [r["hist"]]})["hists"][0]
     rc, out = coq_run(ctx, "replay_C13", cases_file([h]))
     pairs = parse_pairs(out) if rc == 0 else None
